@@ -13,7 +13,34 @@ from ..hd import HZ, SEC, expect, events_to_obligations
 FN = "functions.fdd.EFDD_mpe"
 
 
+def handover_rule(prog, run):
+    """R-handover: EFDD.mpe / mpe_from_plot hand the spectrum, grid, sampling interval, estimator name and THIS call's bands and fit
+    parameters to EFDD_mpe (a value read from run_params must have been stored from the caller's argument before the call)"""
+    run.rule("R-handover", "EFDD.mpe / mpe_from_plot pass result.Sy, result.freq, dt, method_SD, the algorithm's method and the DF1, DF2, cm, MAClim, sppk, npmax of this call to EFDD_mpe", 10)
+    callee = prog.func("functions.fdd.EFDD_mpe")
+    n = 0
+    for ci in prog.classes.values():
+        if not ci.mod.startswith("pyoma2.algorithms"):
+            continue
+        for mname in ("mpe", "mpe_from_plot"):
+            m = ci.methods.get(mname)
+            if m is None:
+                continue
+            want = {"Sy": {"self.result.Sy"}, "freq": {"self.result.freq"}, "dt": {"self.dt", "1 / self.fs"}, "methodSy": {"self.run_params.method_SD"},
+                    "method": {"self.method"}}
+            for k in ("DF1", "DF2", "cm", "MAClim", "sppk", "npmax"):
+                want[k] = {k}
+            if mname == "mpe":
+                want["sel_freq"] = {"sel_freq"}
+            for c, p_, ok, detail in astq.handover(prog, m, callee.qual, want):
+                n += 1
+                run.ob("R-handover", m.qual, f"{mname} -> EFDD_mpe.{p_}", ok, detail, witness=detail[:90], file=rel(prog.mods[m.mod].path), node=c, config=p_)
+    if not n:
+        run.ob("R-handover", "pyoma2.algorithms", "callers of EFDD_mpe", None, "no mpe method calling EFDD_mpe found")
+
+
 def check(prog, run):
+    handover_rule(prog, run)
     run.rule("O-bell", "the argument of the inverse FFT in EFDD_mpe is homogeneous of degree 1 in the spectral-matrix scale S (EFDD and FSDD, per and cor)", 4)
     run.rule("O-scale", "Fn, Xi, Phi returned by EFDD_mpe have degree 0 in S; Fn ~ 1/s, Xi ~ 1 in the time unit", 12)
     run.rule("O-hom", "no degree-mixing sum, dimensional log/exp/arccos or scale-dependent decision on the way (window correction of the 'cor' "
